@@ -4,6 +4,9 @@ import (
 	"fmt"
 	"go/ast"
 	"go/token"
+	"os"
+	"os/exec"
+	"path/filepath"
 	"regexp"
 	"sort"
 	"strconv"
@@ -26,6 +29,7 @@ const (
 	sbClientFile = "db/client.go"
 	sbWriteFile  = "internal/db_impl/sqlite3/write_ops.go"
 	sbReadFile   = "internal/db_impl/sqlite3/read_ops.go"
+	sbTracerFile = "internal/db_impl/sqlite3/utils/tracer.go"
 )
 
 // ---------------------------------------------------------------------------------------------------------------------
@@ -818,6 +822,130 @@ func sbRecv(fd *ast.FuncDecl) string {
 	return ""
 }
 
+// tracerFacts: for every method of ReadTracer / WriteTracer the method it calls on the wrapped object in its return
+// statement (`return r.RD.Name(args...)` / `return w.TX.Name(args...)`) and whether the arguments are the parameters in order.
+func tracerFacts(t *T) ([]string, error) {
+	af, err := t.ParseFile(sbTracerFile)
+	if err != nil {
+		return nil, err
+	}
+	var out []string
+	for _, d := range af.Decls {
+		fd, ok := d.(*ast.FuncDecl)
+		if !ok || fd.Body == nil {
+			continue
+		}
+		recv := sbRecv(fd)
+		if recv != "ReadTracer" && recv != "WriteTracer" {
+			continue
+		}
+		recvName := ""
+		if len(fd.Recv.List[0].Names) == 1 {
+			recvName = fd.Recv.List[0].Names[0].Name
+		}
+		var params []string
+		variadic := false
+		for _, f := range fd.Type.Params.List {
+			if _, ok := f.Type.(*ast.Ellipsis); ok {
+				variadic = true
+			}
+			for _, n := range f.Names {
+				params = append(params, n.Name)
+			}
+		}
+		callee, same := "?", false
+		// the call on the wrapped object: the last statement, either `return x.F.M(...)` or the expression statement `x.F.M(...)`
+		if n := len(fd.Body.List); n > 0 {
+			var call *ast.CallExpr
+			switch st := fd.Body.List[n-1].(type) {
+			case *ast.ReturnStmt:
+				if len(st.Results) == 1 {
+					call, _ = st.Results[0].(*ast.CallExpr)
+				}
+			case *ast.ExprStmt:
+				call, _ = st.X.(*ast.CallExpr)
+			}
+			if call != nil {
+				if sel, ok := call.Fun.(*ast.SelectorExpr); ok {
+					if inner, ok := sel.X.(*ast.SelectorExpr); ok {
+						if id, ok := inner.X.(*ast.Ident); ok && id.Name == recvName && (inner.Sel.Name == "RD" || inner.Sel.Name == "TX") {
+							callee = sel.Sel.Name
+							same = len(call.Args) == len(params) && (call.Ellipsis.IsValid() == variadic)
+							for i := 0; same && i < len(params); i++ {
+								id, ok := call.Args[i].(*ast.Ident)
+								same = ok && id.Name == params[i]
+							}
+						}
+					}
+				}
+			}
+			// nothing but the trace line may precede the call
+			for _, st := range fd.Body.List[:n-1] {
+				es, ok := st.(*ast.ExprStmt)
+				if !ok {
+					same = false
+					continue
+				}
+				c, ok := es.X.(*ast.CallExpr)
+				if !ok {
+					same = false
+					continue
+				}
+				if sel, ok := c.Fun.(*ast.SelectorExpr); !ok || !strings.HasPrefix(sel.Sel.Name, "Trace") {
+					same = false
+				}
+			}
+		}
+		b := "false"
+		if same {
+			b = "true"
+		}
+		out = append(out, fmt.Sprintf("mkTracerFact %s %s %s %s", coqString(recv), coqString(fd.Name.Name), coqString(callee), b))
+	}
+	if len(out) == 0 {
+		return nil, fmt.Errorf("no ReadTracer/WriteTracer methods found in %s", sbTracerFile)
+	}
+	return out, nil
+}
+
+var reMaxVars = regexp.MustCompile(`(?m)^#\s*define\s+SQLITE_MAX_VARIABLE_NUMBER\s+(\d+)`)
+
+// sqliteMaxVariables reads SQLITE_MAX_VARIABLE_NUMBER from the sqlite3 amalgamation of the go-sqlite3 version that the
+// repository's go.mod requires (module cache). Returns the value and a description of where it came from.
+func sqliteMaxVariables(t *T) (int64, string) {
+	const assumed = 32766
+	gomod, err := t.ReadFile("go.mod")
+	if err != nil {
+		return assumed, "assumed (go.mod not readable): default of SQLite >= 3.32"
+	}
+	m := regexp.MustCompile(`github.com/mattn/go-sqlite3\s+(v\S+)`).FindStringSubmatch(gomod)
+	if m == nil {
+		return assumed, "assumed (go-sqlite3 not in go.mod): default of SQLite >= 3.32"
+	}
+	var roots []string
+	if out, err := exec.Command("go", "env", "GOMODCACHE").Output(); err == nil {
+		roots = append(roots, strings.TrimSpace(string(out)))
+	}
+	if h, err := os.UserHomeDir(); err == nil {
+		roots = append(roots, filepath.Join(h, "go", "pkg", "mod"))
+	}
+	for _, r := range roots {
+		file := filepath.Join(r, "github.com", "mattn", "go-sqlite3@"+m[1], "sqlite3-binding.c")
+		b, err := os.ReadFile(file)
+		if err != nil {
+			continue
+		}
+		// the amalgamation defines it under `#ifndef`; go-sqlite3's cgo flags do not override it
+		if mm := reMaxVars.FindSubmatch(b); mm != nil {
+			v, err := strconv.ParseInt(string(mm[1]), 10, 64)
+			if err == nil {
+				return v, "go-sqlite3@" + m[1] + "/sqlite3-binding.c"
+			}
+		}
+	}
+	return assumed, "assumed (amalgamation of go-sqlite3@" + m[1] + " not found in the module cache): default of SQLite >= 3.32"
+}
+
 func extractSqlBind(t *T) (string, error) {
 	// integer constants of db/client.go, in particular ChunkLimit
 	cf, err := t.ParseFile(sbClientFile)
@@ -926,5 +1054,13 @@ func extractSqlBind(t *T) (string, error) {
 	list("stmt_facts", "stmt_fact", stmts)
 	sb.WriteString("\n(* one entry per query text: method, index, first word, expression at the table position *)\n")
 	list("sql_facts", "sql_fact", sqls)
+	tr, err := tracerFacts(t)
+	if err != nil {
+		return "", err
+	}
+	sb.WriteString("\n(* " + sbTracerFile + ": receiver, method, method called on the wrapped object, arguments = parameters in order *)\n")
+	list("tracer_facts", "tracer_fact", tr)
+	maxv, src := sqliteMaxVariables(t)
+	fmt.Fprintf(&sb, "\n(* SQLITE_MAX_VARIABLE_NUMBER: %s *)\nDefinition sqlite_max_variable_number : N := %d.\nDefinition sqlite_max_variable_source : string := %s.\n", src, maxv, coqString(src))
 	return sb.String(), nil
 }
